@@ -27,7 +27,7 @@ KINDS = P.MW_KINDS[:4] + P.SELECT_1Q + P.GENERIC_1Q + P.GENERIC_2Q + ["CPhase", 
 
 
 def cfg():
-    return P.GenCfg(kinds=KINDS, nq=4, max_items=10, max_depth=2, p_sub=18, p_rel=70, max_reps=1, globals_=True,
+    return P.GenCfg(kinds=KINDS, nq=4, max_items=10, max_depth=2, p_sub=18, p_rel=70, max_reps=3, globals_=True,
                     global_zero=True, max_total_leaves=40)
 
 
@@ -78,53 +78,65 @@ def body(case, ctx):
             ops = b.circuit.operations
         if b is None:
             return
-        comps = []
-        with ctx.lib("composite_operations"):
-            comps = list(b.circuit.composite_operations)
-        blocks = [("top", b.circuit, b.circuit.circuit_structure)] + [(f"sub#{i}", c, c) for i, c in enumerate(comps)]
-        listed = {id(o) for o in ops}
         n_subs = sum(1 for _, it in P.iter_items(program["top"]) if P.is_sub(it))
-        if len(comps) != n_subs:
-            ctx.fail("sub-circuit-count", f"{n_subs} sub-circuits added, {len(comps)} reported by composite_operations")
-        for name, obj, struct in blocks:
-            rep = None
-            with ctx.lib("duration"):
-                content = struct.decomposed_operations()
-                rep = float(obj.duration)
-                times = [(float(o.start_time), float(o.end_time)) for o in content]
-            if rep is None:
+        check_circuit(ctx, b.circuit, ops, "built", facts, n_subs)
+        # the same clauses on the unrolled circuit (a circuit like any other; durations were read before unrolling)
+        if st["n_reps_gt1"] > 0:
+            mod = ops2 = None
+            with ctx.lib("apply_modifiers + list"):
+                mod = b.circuit.apply_modifiers()
+                ops2 = mod.operations
+            if ops2 is not None:
+                check_circuit(ctx, mod, ops2, "unrolled", facts, None)
+
+
+def check_circuit(ctx, circuit, ops, what, facts, n_subs):
+    comps = []
+    with ctx.lib("composite_operations"):
+        comps = list(circuit.composite_operations)
+    blocks = [("top", circuit, circuit.circuit_structure)] + [(f"sub#{i}", c, c) for i, c in enumerate(comps)]
+    listed = {id(o) for o in ops}
+    if n_subs is not None and len(comps) != n_subs:
+        ctx.fail("sub-circuit-count", f"{n_subs} sub-circuits added, {len(comps)} reported by composite_operations")
+    for name, obj, struct in blocks:
+        rep = None
+        with ctx.lib("duration"):
+            content = struct.decomposed_operations()
+            rep = float(obj.duration)
+            times = [(float(o.start_time), float(o.end_time)) for o in content]
+        if rep is None:
+            continue
+        if any(id(o) not in listed for o in content):
+            ctx.fail("content-not-listed", f"{what}: {name} lists operations the circuit does not")
+        exp = (max(e for _, e in times) - min(s for s, _ in times)) if times else 0.0
+        if not close(rep, exp):
+            ctx.fail("duration-span", f"{what}: {name} reports duration {rep}, but its operations span {exp} "
+                     f"(starts/ends {times[:12]})", dict(facts, block=name, what=what))
+        if name == "top":
+            with ctx.lib("DeclarativeCircuit.duration"):
+                if not close(float(circuit.duration), float(circuit.circuit_structure.duration)):
+                    ctx.fail("duration-wrapper", "DeclarativeCircuit.duration differs from its structure's duration")
+    # consequence clause: FOLLOWED_BY a block whose content does not start before the block
+    for h in list(ops) + comps:
+        mine = latest = None
+        with ctx.lib("follow-block"):
+            link = h.relation_link
+            ref = link.reference_node
+            if ref is None or link.relation_type.name != "FOLLOWED_BY":
                 continue
-            if any(id(o) not in listed for o in content):
-                ctx.fail("content-not-listed", f"{name} lists operations the circuit does not")
-            exp = (max(e for _, e in times) - min(s for s, _ in times)) if times else 0.0
-            if not close(rep, exp):
-                ctx.fail("duration-span", f"{name} reports duration {rep}, but its operations span {exp} "
-                         f"(starts/ends {times})", dict(facts, block=name))
-            if name == "top":
-                with ctx.lib("DeclarativeCircuit.duration"):
-                    if not close(float(b.circuit.duration), float(b.circuit.circuit_structure.duration)):
-                        ctx.fail("duration-wrapper", "DeclarativeCircuit.duration differs from its structure's duration")
-        # consequence clause: FOLLOWED_BY a block whose content does not start before the block
-        for h in list(ops) + comps:
-            mine = latest = None
-            with ctx.lib("follow-block"):
-                link = h.relation_link
-                ref = link.reference_node
-                if ref is None or link.relation_type.name != "FOLLOWED_BY":
-                    continue
-                if not hasattr(ref, "get_sub_composite_operations"):
-                    continue
-                content = ref.decomposed_operations()
-                if not content:
-                    continue
-                block_start = float(ref.start_time)
-                if min(float(o.start_time) for o in content) < block_start - 1e-9:
-                    continue
-                latest = max(float(o.end_time) for o in content)
-                mine = float(h.start_time)
-            if mine is not None and mine < latest - 1e-9:
-                ctx.fail("follower-overlaps-block", f"{type(h).__name__} is FOLLOWED_BY a block whose content ends at "
-                         f"{latest} but starts at {mine}", facts)
+            if not hasattr(ref, "get_sub_composite_operations"):
+                continue
+            content = ref.decomposed_operations()
+            if not content:
+                continue
+            block_start = float(ref.start_time)
+            if min(float(o.start_time) for o in content) < block_start - 1e-9:
+                continue
+            latest = max(float(o.end_time) for o in content)
+            mine = float(h.start_time)
+        if mine is not None and mine < latest - 1e-9:
+            ctx.fail("follower-overlaps-block", f"{what}: {type(h).__name__} is FOLLOWED_BY a block whose content ends at "
+                     f"{latest} but starts at {mine}", dict(facts, what=what))
 
 
 def parts():
